@@ -86,6 +86,10 @@ type c11World struct {
 	filler  []byte
 	mpTab   map[string]int                            // serialised MP_REACH bytes -> identity
 	shared  map[int]*bgp.PathAttributeMpReachNLRI     // per scenario: one "received UPDATE" per next hop
+	chain   bool              // the next run continues the receiver table of the previous one
+	cView   map[string]string
+	cWant   map[string]string
+	cSeen   map[string]bool
 	mp4     int                                       // % of IPv4 announcements that carry their IPv4 next hop in MP_REACH
 	mp4nhs  int                                       // distinct next hops among them (0: 3)
 	mp4shr  int                                       // % of them that share a received UPDATE's MP_REACH attribute (0: 50)
@@ -297,7 +301,16 @@ func (it *c11Item) build() {
 		it.path = NewEOR(f)
 		return
 	}
-	pn := bgp.PathNLRI{NLRI: it.pfx.nlri, ID: it.id}
+	// the path identifier the route was RECEIVED with (Path.remoteID, and the id inside the
+	// path's own MP_REACH_NLRI) is not the local identifier sent to ADD-PATH peers
+	rid := it.id
+	switch it.pfx.idx % 3 {
+	case 0:
+		rid = 0 // source peer without ADD-PATH
+	case 1:
+		rid = it.id + 100
+	}
+	pn := bgp.PathNLRI{NLRI: it.pfx.nlri, ID: rid}
 	if it.wd {
 		it.path = NewPath(f, nil, pn, true, nil, time.Unix(1, 0), false)
 		it.path.localID = it.id
@@ -346,20 +359,61 @@ func (it *c11Item) line() string {
 
 type c11Opts struct {
 	ext bool
-	ap  []int // model family numbers with ADD-PATH send
+	ap  []int // model family numbers whose negotiated ADD-PATH mode has the SEND bit
+	rx  []int // model family numbers whose negotiated ADD-PATH mode has the RECEIVE bit
+}
+
+// negotiated ADD-PATH mode of a family: 0 none, 1 receive, 2 send, 3 both
+func (c c11Opts) mode(f int) int {
+	m := 0
+	for _, g := range c.rx {
+		if g == f {
+			m |= 1
+		}
+	}
+	for _, g := range c.ap {
+		if g == f {
+			m |= 2
+		}
+	}
+	return m
+}
+
+func (c c11Opts) modesLine() string {
+	n, s := 0, ""
+	for f := 0; f < 4; f++ {
+		if m := c.mode(f); m != 0 {
+			n++
+			s += fmt.Sprintf(" %d %d", f, m)
+		}
+	}
+	return fmt.Sprintf("%d%s", n, s)
 }
 
 func (c c11Opts) enc() *bgp.MarshallingOption {
 	m := map[bgp.Family]bgp.BGPAddPathMode{}
-	for _, f := range c.ap {
-		m[c11Fams[f]] = bgp.BGP_ADD_PATH_SEND
+	for f := 0; f < 4; f++ {
+		if md := c.mode(f); md != 0 {
+			m[c11Fams[f]] = bgp.BGPAddPathMode(md)
+		}
 	}
 	return &bgp.MarshallingOption{AddPath: m, ExtendedMessage: c.ext}
 }
+
+// the receiving side of the same session: it receives what we send and vice versa
 func (c c11Opts) dec() *bgp.MarshallingOption {
 	m := map[bgp.Family]bgp.BGPAddPathMode{}
-	for _, f := range c.ap {
-		m[c11Fams[f]] = bgp.BGP_ADD_PATH_RECEIVE
+	for f := 0; f < 4; f++ {
+		md := bgp.BGP_ADD_PATH_NONE
+		if c.mode(f)&2 != 0 {
+			md |= bgp.BGP_ADD_PATH_RECEIVE
+		}
+		if c.mode(f)&1 != 0 {
+			md |= bgp.BGP_ADD_PATH_SEND
+		}
+		if md != 0 {
+			m[c11Fams[f]] = md
+		}
 	}
 	return &bgp.MarshallingOption{AddPath: m, ExtendedMessage: c.ext}
 }
@@ -592,7 +646,10 @@ func (w *c11World) run(name string, opt c11Opts, items []*c11Item) {
 	o := w.o
 	o.stat("scenario_"+name, 1)
 	o.op("reset")
-	o.op("opts %d %d%s", c11b(opt.ext), len(opt.ap), c11ints(opt.ap))
+	o.op("opts %d %s", c11b(opt.ext), opt.modesLine())
+	for f := 0; f < 4; f++ {
+		o.stat(fmt.Sprintf("scenarios_fam%d_addpath_mode%d", f, opt.mode(f)), 1)
+	}
 	paths := make([]*Path, 0, len(items))
 	for _, it := range items {
 		it.build()
@@ -673,6 +730,17 @@ func (w *c11World) run(name string, opt c11Opts, items []*c11Item) {
 	want := map[string]string{}
 	last := map[string]*c11Item{}
 	eorWant := map[int]bool{}
+	if w.chain {
+		// a later batch of the same session: the receiver continues from where it was
+		for k, v := range w.cView {
+			view[k] = v
+		}
+		for k, v := range w.cWant {
+			want[k] = v
+		}
+	} else {
+		w.cSeen = map[string]bool{}
+	}
 	for _, it := range items {
 		if it.nilp {
 			continue
@@ -682,10 +750,14 @@ func (w *c11World) run(name string, opt c11Opts, items []*c11Item) {
 			continue
 		}
 		k := it.rxKey(opt)
-		view[k] = old
-		want[k] = old
+		if !w.cSeen[k] {
+			view[k] = old
+			want[k] = old
+			w.cSeen[k] = true
+		}
 		last[k] = it
 	}
+	defer func() { w.cView, w.cWant = view, want }()
 	nch := 0
 	for _, it := range items {
 		if !it.nilp && !it.eor {
@@ -969,7 +1041,7 @@ func c11Describe(opt c11Opts, items []*c11Item) map[string]any {
 			l = append(l, fmt.Sprintf("ann fam%d %s id%d attrsLen=%d(set%d) nh=%s hash=%d", it.fam, it.pfx.nlri, it.id, it.as.lenD, it.as.key, nh, it.hash))
 		}
 	}
-	return map[string]any{"ext": opt.ext, "addpath_fams": opt.ap, "paths": l}
+	return map[string]any{"ext": opt.ext, "addpath_send_fams": opt.ap, "addpath_receive_fams": opt.rx, "paths": l}
 }
 
 // ---- generators ----
@@ -977,9 +1049,14 @@ func c11Describe(opt c11Opts, items []*c11Item) map[string]any {
 func (w *c11World) randOpts() c11Opts {
 	r := w.r
 	o := c11Opts{ext: r.chance(35)}
+	// every negotiated VALUE of the mode per family: none, receive-only, send, both
 	for f := 0; f < 4; f++ {
-		if r.chance(40) {
+		m := r.pick(0, 0, 1, 1, 2, 2, 3)
+		if m&2 != 0 {
 			o.ap = append(o.ap, f)
+		}
+		if m&1 != 0 {
+			o.rx = append(o.rx, f)
 		}
 	}
 	return o
@@ -1024,7 +1101,7 @@ func (w *c11World) ann(fam int, pfx *c11Pfx, id uint32, alen int, variant int, v
 // local path ids: several per prefix with ADD-PATH, and also without it (the old and the new
 // best path of a prefix have different local ids; only the later one may reach the peer)
 func (w *c11World) idFor(opt c11Opts, fam int) uint32 {
-	if opt.hasAP(fam) || w.r.chance(40) {
+	if opt.mode(fam) != 0 || w.r.chance(40) {
 		return uint32(1 + w.r.intn(3))
 	}
 	return 1
@@ -1074,6 +1151,26 @@ func (w *c11World) genSmall() {
 		items = append(items, it)
 	}
 	w.run("small", opt, items)
+	// a later batch of the same session: withdraw / replace some of the routes under the same
+	// (prefix, local id); the receiver continues from its table
+	if r.chance(35) {
+		var second []*c11Item
+		for _, it := range items {
+			if it.nilp || it.eor || !r.chance(50) {
+				continue
+			}
+			if r.chance(60) {
+				second = append(second, &c11Item{fam: it.fam, pfx: it.pfx, id: it.id, wd: true})
+			} else {
+				second = append(second, w.ann(it.fam, it.pfx, it.id, 40, 5+r.intn(2), r.chance(30), false))
+			}
+		}
+		if len(second) > 0 {
+			w.chain = true
+			w.run("small_followup", opt, second)
+			w.chain = false
+		}
+	}
 }
 
 // IPv4 unicast: one attribute set sized so that k NLRIs land within ±8 octets of the limit
@@ -1339,6 +1436,49 @@ func (w *c11World) corpusMp4() {
 	}
 }
 
+// (5) product of the packer's feature dimensions: {ADD-PATH mode none / receive / send / both} x
+// {next hop in NEXT_HOP / IPv4 in MP_REACH / IPv6 in MP_REACH (RFC 8950)} for IPv4 unicast and the
+// MP families, two paths per prefix (local ids 1 and 2, received ids different from the local
+// ones), announced in one batch and withdrawn (with the local ids) in the next batch of the same
+// session; and both in ONE batch (announce id 1, then withdraw / replace under id 2): with the id
+// on the wire these are two routes, without it the later action wins.
+func (w *c11World) corpusProduct() {
+	for mode := 0; mode < 4; mode++ {
+		for fam := 0; fam < 4; fam++ {
+			for nhk := 0; nhk < 3; nhk++ {
+				if fam != 0 && nhk != 2 {
+					continue
+				}
+				opt := c11Opts{}
+				if mode&2 != 0 {
+					opt.ap = []int{fam}
+				}
+				if mode&1 != 0 {
+					opt.rx = []int{fam}
+				}
+				w.mp4 = 0
+				if nhk == 1 {
+					w.mp4 = 100
+				}
+				mk := func(seed uint64, id uint32, variant int) *c11Item {
+					return w.ann(fam, w.prefix(fam, 24, seed), id, 40, variant, nhk == 2, false)
+				}
+				wd := func(seed uint64, id uint32) *c11Item {
+					return &c11Item{fam: fam, pfx: w.prefix(fam, 24, seed), id: id, wd: true}
+				}
+				a1, a2, b1, b2 := mk(401, 1, 1), mk(401, 2, 2), mk(402, 1, 1), mk(403, 2, 1)
+				w.run("corpus_product_announce", opt, []*c11Item{a1, a2, b1, b2})
+				w.chain = true
+				w.run("corpus_product_withdraw", opt, []*c11Item{wd(401, 1), wd(402, 1)})
+				w.run("corpus_product_withdraw", opt, []*c11Item{wd(401, 2), wd(403, 2)})
+				w.chain = false
+				w.run("corpus_product_one_batch", opt, []*c11Item{mk(404, 1, 1), wd(404, 2), mk(405, 1, 1), mk(405, 2, 2), wd(406, 1), mk(406, 2, 1)})
+				w.mp4 = 0
+			}
+		}
+	}
+}
+
 func TestVerifC11(t *testing.T) {
 	o := vOpen(t)
 	defer o.close()
@@ -1347,6 +1487,7 @@ func TestVerifC11(t *testing.T) {
 	w.corpus()
 	w.corpusVpnLL()
 	w.corpusMp4()
+	w.corpusProduct()
 	mul := 1
 	if o.thorough {
 		mul = 6
